@@ -658,6 +658,8 @@ def m_bool(I, v=False):
 
 
 def m_all(I, it):
+    if isinstance(payload(it), (str, SStr, SDecStr, SFn)):
+        return True         # the items of a string are its one-character substrings: all truthy (also for "")
     terms = []
     for x in I.iterate(it):
         x = concretize(x) if is_sym(x) else x
